@@ -245,6 +245,7 @@ def _snapshot(c):
                 walk(y)
         f(st)
     walk(c)
+    walk = None     # (break the closure cycle: see sim/walker.py)
     return out
 
 
